@@ -23,7 +23,7 @@ OVER = (L + 50, U + 200)  # a second, overlapping range
 V0, V1 = 7 * 10**9, 3 * 10**18  # raw in-amounts (token0 = USDC 6 dec, token1 = WETH 18 dec)
 POOLS = {"small": 3 * 10**15, "large": 10**22}
 OPS = ["none", "swap", "add_far", "add_same", "remove_part", "collect", "add_remove", "add_over", "transfer_out", "transfer_out_in", "add_same_then_rejected",
-       "rejected_then_add_same", "remove_part_then_rejected"]
+       "rejected_then_add_same", "remove_part_then_rejected", "empty_nocollect_add_over", "add_over_empty_over_nocollect"]
 # a second grid centred on tick 0 (a stable / stable pool with equal decimals, fee 0.01 %, spacing 1): the previous close can be exactly 0
 ZL, ZU = -20, 20
 ZTICKS = [ZL - 2, ZL - 1, ZL, ZL + 1, 0, ZU - 1, ZU, ZU + 1, ZU + 30]
@@ -87,6 +87,13 @@ def do_op(name, grid="std"):
                 m.add_liquidity_by_tick(L, U, Decimal("0.3"), Decimal(300))
             if name != "rejected_then_add_same":
                 refused()
+        elif name == "empty_nocollect_add_over":
+            # the first position is emptied but its tokens are not collected (it stays in the book with liquidity 0), then another range is opened
+            m.remove_liquidity(main, collect=False)
+            m.add_liquidity_by_tick(OVER[0], OVER[1], Decimal("0.5"), Decimal(500))
+        elif name == "add_over_empty_over_nocollect":
+            m.add_liquidity_by_tick(OVER[0], OVER[1], Decimal("0.5"), Decimal(500))
+            m.remove_liquidity(PositionInfo(OVER[0], OVER[1]), collect=False)
         elif name == "open":
             m.add_liquidity_by_tick(L, U, Decimal(1), Decimal(1500))
         elif name == "none":
@@ -212,7 +219,8 @@ def judge(part: Part, cfg):
             e0 = vol0 * fee_rate * w * single_share
             e1 = vol1 * fee_rate * w * single_share
             klass = "stationary" if a == b else ("crossing" if 0 < w < 1 else ("inside" if w == 1 else "outside"))
-            if len(before) == 1:
+            if not any(v[2] > 0 for k2, v in before.items() if k2 != key):
+                # the only position that holds liquidity (others, if any, were emptied and only wait for their tokens to be collected)
                 ok = abs(d0 - e0) <= REL * max(e0, Fraction(1, 10**20)) and abs(d1 - e1) <= REL * max(e1, Fraction(1, 10**20))
                 if not ok:
                     direction = "low" if (d0 < e0 or d1 < e1) else "high"
